@@ -254,6 +254,19 @@ var v2Markers = []string{"1. ", "iv. ", "3.1. ", "12. "}
 
 func v2HeaderLike(w string) bool { return header(strings.ToLower(w)) }
 
+// v2FirstWord: the first word of a line as the tokenizer sees it (decoration in front of it is skipped)
+func v2FirstWord(ln string) string {
+	start := strings.IndexFunc(ln, func(r rune) bool { return unicode.IsLetter(r) || unicode.IsDigit(r) || r == '&' || r == '(' })
+	if start < 0 {
+		return ""
+	}
+	rest := ln[start:]
+	if end := strings.IndexFunc(rest, unicode.IsSpace); end >= 0 {
+		rest = rest[:end]
+	}
+	return rest
+}
+
 // a line the tokenizer treats as a notice / date line (markers are prefixed to text lines only)
 func v2NoticeLine(fields []string) bool {
 	ln := strings.Join(fields, " ")
@@ -306,7 +319,7 @@ func (vt *v2T) scenC06() {
 			for i, ln := range lines {
 				out[i] = ln
 				f := strings.Fields(ln)
-				if !ex[i] && len(f) > 0 && !v2HeaderLike(f[0]) && !v2NoticeLine(f) && vt.rng.Intn(3) == 0 {
+				if fw := v2FirstWord(ln); !ex[i] && fw != "" && !v2HeaderLike(fw) && !v2NoticeLine(f) && vt.rng.Intn(3) == 0 {
 					out[i] = m + ln
 				}
 			}
@@ -415,7 +428,7 @@ func (vt *v2T) scenC11() {
 		// line k of the original (Normalize keeps the case of a word's first letter and the original
 		// spelling; both are folded by Match's own tokenisation)
 		td, tn := c.tokens(x), c.tokens(norm)
-		align := ""
+		align, alignclass := "", ""
 		for k := 0; k < len(td.Tokens) || k < len(tn.Tokens); k++ {
 			if k >= len(td.Tokens) || k >= len(tn.Tokens) || td.Tokens[k] != tn.Tokens[k] {
 				desc := func(d *indexedDocument) string {
@@ -425,12 +438,27 @@ func (vt *v2T) scenC11() {
 					return fmt.Sprintf("%q@%d", c.c.dict.getWord(d.Tokens[k].ID), d.Tokens[k].Line)
 				}
 				align = fmt.Sprintf("token %d: original %s, normalized %s", k, desc(td), desc(tn))
+				// call-site signatures of the two recorded findings, decided on the token level
+				if k < len(td.Tokens) {
+					w := c.c.dict.getWord(td.Tokens[k].ID)
+					lastOnLine := k+1 >= len(td.Tokens) || td.Tokens[k+1].Line > td.Tokens[k].Line
+					firstOnLine := k == 0 || td.Tokens[k-1].Line < td.Tokens[k].Line
+					if strings.HasSuffix(w, "-") && lastOnLine {
+						alignclass = "token-ends-in-hyphen"
+					} else if w == "copyright" && firstOnLine {
+						for _, m := range tn.Matches {
+							if m.StartLine == td.Tokens[k].Line {
+								alignclass = "cleaned-line-is-notice"
+							}
+						}
+					}
+				}
 				break
 			}
 		}
 		ra := vt.match(c, x, v2MatchOpts{})
 		rb := vt.match(c, norm, v2MatchOpts{})
-		vt.pair(ra, rb, "normalize", 0, v2Ident(v2NLines(x)), true, nil, map[string]interface{}{"label": labels[xi], "nolines": false, "align": align})
+		vt.pair(ra, rb, "normalize", 0, v2Ident(v2NLines(x)), true, nil, map[string]interface{}{"label": labels[xi], "nolines": false, "align": align, "alignclass": alignclass})
 		vt.reset(false)
 	}
 }
